@@ -79,8 +79,43 @@ let tri_pts l = List.concat_map (fun ((a, b), c) -> [a; b; c]) l
 let b2i b = if b then 1 else 0
 let ptri p = ((p, p), p)
 
-(* squared distance from p to the surface, clamped at ub (None = certificate failure) *)
-let near_surface p tris (ub : q) = mingap2 [ptri p] tris ub
+let rec shr_pos p k = if k <= 0 then p else (match p with XO q -> shr_pos q (k - 1) | XI q -> shr_pos q (k - 1) | XH -> XH)
+let shr z k = match z with Z0 -> Z0 | Zpos p -> Zpos (shr_pos p k) | Zneg p -> Zneg (shr_pos p k)
+let zle a b = zcmp a b <= 0
+(* p is farther than r from the box of t along some axis (comparisons only) *)
+let far_axis ((x, y), z) ((a, b) : ((z * z) * z) * ((z * z) * z)) r =
+  let ((ax, ay), az) = a and ((bx, by), bz) = b in
+  zle r (zsub ax x) || zle r (zsub x bx) || zle r (zsub ay y) || zle r (zsub y by) || zle r (zsub az z) || zle r (zsub z bz)
+let box_of_tri ((((ax, ay), az), ((bx, by), bz)), ((cx, cy), cz)) =
+  let mn a b c = if zle a b then (if zle a c then a else c) else (if zle b c then b else c)
+  and mx a b c = if zle b a then (if zle c a then a else c) else (if zle c b then b else c) in
+  (((mn ax bx cx, mn ay by cy), mn az bz cz), ((mx ax bx cx, mx ay by cy), mx az bz cz))
+(* generic-position filter (not a verdict): is p within r of the plane of a
+   triangle whose box inflated by r contains p?  Conservative: may say "near"
+   for far points, never "far" for points within r of the surface. *)
+let near3 p (tb : (_ * _) list) r =
+  let r2 = zmul r r in
+  List.exists (fun (((a, b), c), bx) ->
+      (not (far_axis p bx r)) &&
+      (let o = o3 a b c p in
+       let n = cross (psub b a) (psub c a) in
+       zle (zmul o o) (zmul r2 (norm2 n)))) tb
+(* same in the xy-plane against segments (a,b) *)
+let near2 p (eb : (_ * _) list) r =
+  let r2 = zmul r r in
+  List.exists (fun ((a, b), bx) ->
+      (not (far_axis p bx r)) &&
+      (let o = orient2 a b p in
+       let d = psub b a in
+       zle (zmul o o) (zmul r2 (norm2 d)))) eb
+(* verdict: exact squared distance from p to the surface is < tol2 (Some true),
+   not (Some false); None = certificate failure *)
+let on_surface p (tb : (_ * _) list) t tol2 =
+  let res = ref (Some false) in
+  List.iter (fun (tr, bx) ->
+      if !res = Some false && not (far_axis p bx t) then
+        (match pt_tri_dist2 p tr with None -> res := None | Some d -> if qlt d tol2 then res := Some true)) tb;
+  !res
 
 let () =
   let mM = ref None and mN = ref None in
@@ -148,12 +183,10 @@ let () =
           let od = List.init 6 (fun i -> dy_of_hex t.(2 + i)) in
           let nh = int_of_string t.(8) in
           let hits = List.init nh (fun i -> (float_of_hex t.(9 + 5 * i), List.init 3 (fun k -> dy_of_hex t.(10 + 5 * i + k)))) in
-          let emin = emin_of (mesh_dys m @ od @ List.concat_map snd hits) in
+          let p3 emin l = match List.map (zof emin) l with [a; b; c] -> ((a, b), c) | _ -> failwith "p3" in
+          let emin = emin_of (mesh_dys m @ od) in
           let tris = mesh_tris emin m in
-          let p3 l = match List.map (zof emin) l with [a; b; c] -> ((a, b), c) | _ -> failwith "p3" in
-          let o = p3 [List.nth od 0; List.nth od 1; List.nth od 2] and e = p3 [List.nth od 3; List.nth od 4; List.nth od 5] in
-          let s = zmax (max_abs (tri_pts tris)) (max_abs [o; e]) in
-          let tol2 = { qnum = zmul s s; qden = pow2 72 } in
+          let o = p3 emin [List.nth od 0; List.nth od 1; List.nth od 2] and e = p3 emin [List.nth od 3; List.nth od 4; List.nth od 5] in
           let (cr, dg) = seg_crossings o e tris in
           let wo = winding_fast tris o and we = winding_fast tris e in
           let sorted = ref true and prev = ref neg_infinity in
@@ -161,10 +194,15 @@ let () =
           let onsurf = ref true and onseg = ref true and cert = ref true in
           List.iter (fun (_, pd) ->
               if List.for_all (fun d -> d.fin) pd then begin
-                let p = p3 pd in
-                (match near_surface p tris tol2 with None -> cert := false | Some r -> if not (qlt r tol2) then onsurf := false);
-                (match tri_dist2 (qtri_of (ptri p)) (qtri_of ((o, e), e)) with
-                 | None -> cert := false | Some (d, _) -> if not (qlt d tol2) then onseg := false)
+                let em = min emin (emin_of pd) in
+                let tr = mesh_tris em m in
+                let tb = List.map (fun x -> (x, box_of_tri x)) tr in
+                let p = p3 em pd and o = p3 em [List.nth od 0; List.nth od 1; List.nth od 2] and e = p3 em [List.nth od 3; List.nth od 4; List.nth od 5] in
+                let s = zmax (max_abs (tri_pts tr)) (max_abs [o; e]) in
+                let tl = zmax (shr s 36) (z_of_int 1) in
+                let tol2 = qz (zmul tl tl) in
+                (match on_surface p tb tl tol2 with None -> cert := false | Some b -> if not b then onsurf := false);
+                (match pt_tri_dist2 p ((o, e), e) with None -> cert := false | Some d -> if not (qlt d tol2) then onseg := false)
               end else onsurf := false) hits;
           if not !cert then Printf.printf "V %s ray CERTFAIL\n" id
           else Printf.printf "V %s ray %d %d %d %d %d %d %d %d\n" id nh (int_of_z cr) (int_of_z dg) (int_of_z wo) (int_of_z we)
@@ -177,10 +215,9 @@ let () =
           let tris = mesh_tris emin m in
           let p = match List.map (zof emin) pd with [a; b; c] -> ((a, b), c) | _ -> failwith "p" in
           let s = zmax (max_abs (tri_pts tris)) (max_abs [p]) in
-          let r2 = { qnum = zmul s s; qden = pow2 40 } in
-          (match near_surface p tris r2 with
-           | None -> Printf.printf "V %s wind CERTFAIL\n" id
-           | Some r -> Printf.printf "V %s wind %d %d %d\n" id rep (int_of_z (winding_fast tris p)) (b2i (qlt r r2)))
+          let r = zmax (shr s 20) (z_of_int 1) in
+          let tb = List.map (fun x -> (x, box_of_tri x)) tris in
+          Printf.printf "V %s wind %d %d %d\n" id rep (int_of_z (winding_fast tris p)) (b2i (near3 p tb r))
         | "SZ" -> slice_z := Some (dy_of_hex t.(2))
         | "S" | "P" ->
           let m = get mM in
@@ -192,10 +229,11 @@ let () =
               incr pos;
               List.init n (fun _ -> let x = dy_of_hex t.(!pos) and y = dy_of_hex t.(!pos + 1) in pos := !pos + 2; (x, y))) in
           let zd = if is_slice then (match !slice_z with Some z -> z | None -> failwith "no z") else { m = 0; e = 0; fin = true } in
-          let emin = emin_of (mesh_dys m @ [zd] @ List.concat_map (fun p -> List.concat_map (fun (x, y) -> [x; y]) p) polys) - 8 in
+          let emin = emin_of (mesh_dys m @ [zd]) - 8 in
+          let pe = min emin (emin_of (List.concat_map (fun p -> List.concat_map (fun (x, y) -> [x; y]) p) polys)) in
           let tris = mesh_tris emin m in
           let pts = tri_pts tris in
-          let zpolys = List.map (List.map (fun (x, y) -> ((zof emin x, zof emin y), Z0))) polys in
+          let zpolys = List.map (List.map (fun (x, y) -> ((zof pe x, zof pe y), Z0))) polys in
           let z = zof emin zd in
           let generic = not (List.exists (fun ((_, _), vz) -> zcmp vz z = 0) pts) in
           let lo f = List.fold_left (fun a p -> if zcmp (f p) a < 0 then f p else a) (f (List.hd pts)) pts
@@ -203,46 +241,39 @@ let () =
           let fx ((x, _), _) = x and fy ((_, y), _) = y in
           let lx = lo fx and hx = hi fx and ly = lo fy and hy = hi fy in
           let s = max_abs pts in
-          let r2 = { qnum = zmul s s; qden = pow2 40 } in
-          (* flattened edges for the 2-D distance (Project) *)
+          let r = zmax (shr s 20) (z_of_int 1) in
+          let tb = List.map (fun x -> (x, box_of_tri x)) tris in
           let flat ((x, y), _) = ((x, y), Z0) in
-          let edges = if is_slice then [] else List.concat_map (fun ((a, b), c) ->
-              [((flat a, flat b), flat b); ((flat b, flat c), flat c); ((flat c, flat a), flat a)]) tris in
-          let nsamp = ref 0 and bad = ref 0 and skipped = ref 0 and cert = ref true and inside_n = ref 0 in
-          let rec shr p k = if k = 0 then p else (match p with XO p' -> shr p' (k - 1) | _ -> failwith "shr") in
-          let div256 v k = (* v * k / 256, exact because of the 8 extra bits *)
-            (match v with Z0 -> Z0 | Zpos p -> zmul (Zpos (shr p 8)) (z_of_int k) | Zneg p -> zmul (Zneg (shr p 8)) (z_of_int k)) in
+          let eb = if is_slice then [] else List.concat_map (fun ((a, b), c) ->
+              List.map (fun (u, v) -> let u = flat u and v = flat v in ((u, v), box_of_tri ((u, v), v))) [(a, b); (b, c); (c, a)]) tris in
+          let nsamp = ref 0 and bad = ref 0 and skipped = ref 0 and inside_n = ref 0 in
+          let div256 v k = zmul (shr v 8) (z_of_int k) in
           for i = 0 to 7 do for j = 0 to 7 do
-              (* odd sixteenths of the bounding box + a skew, so that samples avoid axis-aligned and diagonal features *)
+              (* odd sixteenths of the bounding box + a skew, so that samples avoid axis-aligned and diagonal features;
+                 exact because the scale has 8 spare bits *)
               let kx = 16 * (2 * i + 1) + j and ky = 16 * (2 * j + 1) + 3 * i - 7 in
               let x = zadd lx (div256 (zsub hx lx) kx) and y = zadd ly (div256 (zsub hy ly) ky) in
+              let xp = shl x (emin - pe) and yp = shl y (emin - pe) in
               incr nsamp;
               if is_slice then begin
                 let p = ((x, y), z) in
-                match near_surface p tris r2 with
-                | None -> cert := false
-                | Some r ->
-                  if qlt r r2 then incr skipped
-                  else begin
-                    let w2 = polys_wind zpolys ((x, y), Z0) and w3 = winding_fast tris p in
-                    if zcmp w3 Z0 <> 0 then incr inside_n;
-                    if zcmp w2 w3 <> 0 then incr bad
-                  end
+                if near3 p tb r then incr skipped
+                else begin
+                  let w2 = polys_wind zpolys ((xp, yp), Z0) and w3 = winding_fast tris p in
+                  if zcmp w3 Z0 <> 0 then incr inside_n;
+                  if zcmp w2 w3 <> 0 then incr bad
+                end
               end else begin
                 let p = ((x, y), Z0) in
-                match mingap2 [ptri p] edges r2 with
-                | None -> cert := false
-                | Some r ->
-                  if qlt r r2 then incr skipped
-                  else begin
-                    let w2 = polys_wind zpolys p and sh = shadow_count tris p in
-                    if zcmp sh Z0 <> 0 then incr inside_n;
-                    if (zcmp w2 Z0 > 0) <> (zcmp sh Z0 <> 0) then incr bad
-                  end
+                if near2 p eb r then incr skipped
+                else begin
+                  let w2 = polys_wind zpolys ((xp, yp), Z0) and sh = shadow_count tris p in
+                  if zcmp sh Z0 <> 0 then incr inside_n;
+                  if (zcmp w2 Z0 > 0) <> (zcmp sh Z0 <> 0) then incr bad
+                end
               end
             done done;
-          if not !cert then Printf.printf "V %s %s CERTFAIL\n" id (if is_slice then "slice" else "proj")
-          else Printf.printf "V %s %s %d %d %d %d %d\n" id (if is_slice then "slice" else "proj") !nsamp !bad !skipped (b2i generic) !inside_n
+          Printf.printf "V %s %s %d %d %d %d %d\n" id (if is_slice then "slice" else "proj") !nsamp !bad !skipped (b2i generic) !inside_n
         | "D" -> nparts_rep := int_of_string t.(2); parts := []
         | "DM" -> parts := parse_mesh t 2 :: !parts
         | "END" ->
